@@ -126,12 +126,13 @@ def calls_ok(obs, exp_calls, wire):
     return j == len(obs)
 
 
-def gen_cases(ctx, sc, maxvals, depth, readvals, breadth, label):
-    cfg = ("INIT Init\nNEXT Next\nCONSTANTS\n  MaxVals = %d\n  Depth = %d\n  ReadVals = %d\n"
-           "  Breadth = \"%s\"\nINVARIANTS WriterParses RoundTrip PerturbedWellFormed UnknownIgnored Emit\nCHECK_DEADLOCK FALSE\n"
-           % (maxvals, depth, readvals, breadth))
+def gen_cases(ctx, sc, maxvals, depth, readvals, breadth, label, setdups=False, module="MC_WireGen", invariants=None):
+    cfg = ("INIT Init\nNEXT Next\nCONSTANTS\n  SetDups = %s\n  MaxVals = %d\n  Depth = %d\n  ReadVals = %d\n"
+           "  Breadth = \"%s\"\nINVARIANTS %s\nCHECK_DEADLOCK FALSE\n"
+           % ("TRUE" if setdups else "FALSE", maxvals, depth, readvals, breadth,
+              invariants or "WriterParses RoundTrip PerturbedWellFormed UnknownIgnored Emit"))
     tsc, _ = schemalib.to_tla(sc)
-    r = ctx.tlc("Wire", "MC_WireGen", "gen.cfg", files={"gen.cfg": cfg, "schema.json": json.dumps(tsc)},
+    r = ctx.tlc("Wire", module, "gen.cfg", files={"gen.cfg": cfg, "schema.json": json.dumps(tsc)},
                 timeout=3000, label=label)
     return ctx.tlc_cases(r)
 
